@@ -240,7 +240,7 @@ func C08(tier string) int {
 			}
 		}
 	}
-	run.Rule = fmt.Sprintf("(a) corpus of %d conversations (DATA/BDAT transfers, AUTH, several transactions, errors; SMTP, LMTP, LMTP per-recipient) cut at EVERY byte offset x terminal answer {EOF, timeout, reset} x {one segment, one octet per segment}; (b) %d close-reason cases: connection states {fresh, greeted, authenticated, MAIL, RCPT, mid-BDAT, after a message} x server-initiated close {QUIT, 4th protocol error, over-long line, backend panic in Mail/Rcpt/Data/BDAT delivery} x every suffix and every single element of a pool of %d follow-up commands already buffered behind the closing command x {same segment, next segment, per octet}. All executions run in synctest bubbles: the bubble must drain (no goroutine of the connection left). Distinct by construction; non-trivial = a session exists at the cut / a suffix is buffered. (c) STARTTLS conversations over a real TLS layer: {handshake completes, the client sends non-handshake octets, the client hangs up instead} x 5 plaintext prefixes (none ... mid-BDAT) x 7 continuations x 3 terminal answers, judged per session. Oracle on the backend trace: every session gets exactly one Logout, no callback begins after it, no session is created after the end, no recovered panic unless the backend panicked, output identical to the conversation without the buffered suffix.", len(corpus), len(closeCases), len(pool))
+	run.Rule = fmt.Sprintf("(a) corpus of %d conversations (DATA/BDAT transfers, AUTH, several transactions, errors; SMTP, LMTP, LMTP per-recipient) cut at EVERY byte offset x terminal answer {EOF, timeout, reset} x {one segment, one octet per segment}; (b) %d close-reason cases: connection states {fresh, greeted, authenticated, MAIL, RCPT, mid-BDAT, after a message} x server-initiated close {QUIT, 4th protocol error, over-long line, backend panic in Mail/Rcpt/Data/BDAT delivery} x every suffix and every single element of a pool of %d follow-up commands already buffered behind the closing command x {same segment, next segment, per octet}. All executions run in synctest bubbles: the bubble must drain (no goroutine of the connection left). Distinct by construction; non-trivial = a session exists at the cut / a suffix is buffered. (d) idle-timeout arming: ReadTimeout/WriteTimeout one minute on the virtual clock, a peer that pauses 40 s before every segment of 6 conversations x 3 modes - every wait must be under a freshly armed deadline, the last wait ends in 421; (c) STARTTLS conversations over a real TLS layer: {handshake completes, the client sends non-handshake octets, the client hangs up instead} x 5 plaintext prefixes (none ... mid-BDAT) x 7 continuations x 3 terminal answers, judged per session. Oracle on the backend trace: every session gets exactly one Logout, no callback begins after it, no session is created after the end, no recovered panic unless the backend panicked, output identical to the conversation without the buffered suffix.", len(corpus), len(closeCases), len(pool))
 	run.Assumptions = []string{"an unterminated fragment that the line reader hands out before it reports EOF counts as input received before the disconnect", "for STARTTLS conversations (two sessions per connection) the oracle is per session: exactly one Logout each, nothing on a session after its own Logout"}
 
 	type job struct{ ci, cut int }
@@ -292,6 +292,19 @@ func C08(tier string) int {
 			run.Sample("close", 4, map[string]interface{}{"mode": c.Mode, "state": c.Prefix, "reason": c.Reason, "seg": c.Seg, "input": fmt.Sprintf("%q", c.In)})
 		}
 	})
+	dcases := c08DeadlineCases()
+	h.ParallelFor(len(dcases), func(i int) {
+		c := dcases[i]
+		f := evalC08Deadlines(c)
+		run.Eval(true)
+		if f != nil {
+			run.Violate("c08-deadlines", c, f, func() *h.Finding { return evalC08Deadlines(c) })
+			run.Outcome("violation:" + f.Sig)
+		} else {
+			run.Outcome("deadlines-ok")
+		}
+	})
+	run.Sample("deadline-case", 1, dcases[0])
 	tcases := c08TLSCases()
 	h.ParallelFor(len(tcases), func(i int) {
 		c := tcases[i]
@@ -418,6 +431,58 @@ func c08TLSCases() []C08TLSCase {
 				}
 			}
 		}
+	}
+	return out
+}
+
+// ---- idle-timeout arming -------------------------------------------------------------------------------
+
+type C08DeadlineCase struct {
+	Mode string   `json:"mode"`
+	Segs []string `json:"segs"` // one segment per element; the peer pauses 40 s (virtual) before each
+}
+
+// evalC08Deadlines: "idle timeout" as a close reason presupposes that the server arms a fresh read deadline
+// for every wait. ReadTimeout/WriteTimeout are one minute, the peer pauses 40 s before each segment.
+func evalC08Deadlines(c C08DeadlineCase) *h.Finding {
+	pc := ref.PConfig{LMTP: strings.HasPrefix(c.Mode, "lmtp"), LMTPBackend: c.Mode == "lmtp-rcpt", AllowInsecureAuth: true, AuthBackend: true}
+	cfg, be := serverFor(pc)
+	cfg.Timeouts, cfg.PeerPause = true, true
+	var segs [][]byte
+	for _, s := range c.Segs {
+		segs = append(segs, []byte(s))
+	}
+	o := h.RunS(cfg, be, segs, h.TermTimeout)
+	desc := fmt.Sprintf("mode=%s segments=%q (ReadTimeout 1m, 40s pause before each)", c.Mode, c.Segs)
+	if f := o.Sanity("c08", desc); f != nil {
+		return f
+	}
+	if f := sessionOracle(o.Trace, false, o.Log); f != nil {
+		f.What = desc + ": " + f.What
+		return f
+	}
+	// the final wait ends in the idle timeout: 421 and closed
+	n := len(o.Replies)
+	if n == 0 || o.Replies[n-1].Code != 421 && o.Replies[n-1].Code != 221 {
+		return h.F("c08-idle-timeout-reply", "%s: the connection did not end with 421 (or 221): %s", desc, o.Codes())
+	}
+	return nil
+}
+
+func init() { h.RegisterReplayer("c08-deadlines", evalC08Deadlines) }
+
+func c08DeadlineCases() []C08DeadlineCase {
+	var out []C08DeadlineCase
+	for _, mode := range corpusModes {
+		hl := hello(mode)
+		out = append(out,
+			C08DeadlineCase{Mode: mode, Segs: []string{hl, "NOOP\r\n", "NOOP\r\n", "NOOP\r\n"}},
+			C08DeadlineCase{Mode: mode, Segs: []string{"NOOP\r\n", hl, "MAIL FROM:<ok@a.example>\r\n", "RCPT TO:<ok@b.example>\r\n", "RSET\r\n", "NOOP\r\n"}},
+			C08DeadlineCase{Mode: mode, Segs: []string{hl, "AUTH ONE\r\n", "Z29vZA==\r\n", "NOOP\r\n", "MAIL FROM:<ok@a.example>\r\n"}},
+			C08DeadlineCase{Mode: mode, Segs: []string{hl, "MAIL FROM:<ok@a.example>\r\n", "RCPT TO:<ok@b.example>\r\n", "DATA\r\nhello\r\n.\r\n", "NOOP\r\n", "QUIT\r\n"}}, // (the wait for the message after 354 runs under the deadline of the DATA command itself: not judged)
+			C08DeadlineCase{Mode: mode, Segs: []string{hl, "MAIL FROM:<ok@a.example>\r\n", "RCPT TO:<ok@b.example>\r\n", "BDAT 3\r\nabc", "BDAT 2 LAST\r\nde", "NOOP\r\n"}},
+			C08DeadlineCase{Mode: mode, Segs: []string{hl, "FOO\r\n", "BAR\r\n", "NOOP\r\n", "BAZZ\r\n"}},
+		)
 	}
 	return out
 }
